@@ -367,6 +367,14 @@ def async_proxy(pure=False, sync_fn=None, asyncio_fn=None, allow_sync_call=False
 
     def decorate(fn):
         if pure:
+            # The function itself is the async form (calling it returns a future). Mark it the
+            # way lazy() does, so that is_pure_async_fn(), is_async_fn(), get_async_fn() and
+            # async_call() recognize it instead of treating it as a synchronous function.
+            target = getattr(fn, "__func__", fn)  # classmethod, staticmethod
+            try:
+                target.is_pure_async_fn = core_helpers.true_fn
+            except (TypeError, AttributeError):
+                pass  # some callables don't let you assign attributes
             return fn
         if sync_fn is None:
             return qcore.decorators.decorate(AsyncProxyDecorator, asyncio_fn)(fn)
